@@ -17,9 +17,9 @@ type c08Arch struct {
 	Text        string
 	Fails       bool // generate fails when the file is processed alone
 	Chain       bool
-	Include     bool // not a rule file: lives in include/
-	OfPrev      bool // chain link file of the previous file's rule (same id, offset 1)
-	FailsFormat bool // format of the file fails as well
+	Include     bool   // not a rule file: lives in include/
+	OfPrev      bool   // chain link file of the previous file's rule (same id, offset 1)
+	FailsFormat bool   // format of the file fails as well
 	Spell       string // the chain part of the file name as written (default -chain1 for Chain, none otherwise)
 }
 
